@@ -43,6 +43,14 @@ func Encoder_encodeWithoutHint(content string, ecLevel decoder.ErrorCorrectionLe
 }
 
 func Encoder_encode(content string, ecLevel decoder.ErrorCorrectionLevel, hints map[gozxing.EncodeHintType]interface{}) (*QRCode, gozxing.WriterException) {
+	switch ecLevel {
+	case decoder.ErrorCorrectionLevel_L, decoder.ErrorCorrectionLevel_M,
+		decoder.ErrorCorrectionLevel_Q, decoder.ErrorCorrectionLevel_H:
+	default:
+		return nil, gozxing.NewWriterException(
+			"IllegalArgumentException: invalid ErrorCorrectionLevel %d", int(ecLevel))
+	}
+
 	// Determine what character encoding has been specified by the caller, if any
 	encoding := Encoder_DEFAULT_BYTE_MODE_ENCODING
 	encodingHint, hasEncodingHint := hints[gozxing.EncodeHintType_CHARACTER_SET]
